@@ -1985,6 +1985,10 @@ class UserSpaceImpl(*_user_space_impl_base):
     def clear_on_allow_none(self):
         """Clear the values computed under another allow_none in self's tree"""
         self.clear_all_cells(clear_input=False, del_items=True)
+        for cells in self.cells.values():
+            if not cells.is_cached:
+                # The values computed through an uncached cells
+                self.model.clear_obj(cells)
         self.clear_subs_rootitems()     # The dynamic copies of self
         for space in self.named_spaces.values():
             space.clear_on_allow_none()
